@@ -16,7 +16,7 @@ use crate::bytes;
 use crate::gen::{self, fnv64, Rng};
 use crate::hist::guarded;
 use crate::real;
-use crate::report::{Report, VERIF};
+use crate::report::Report;
 
 const HEADER: &str = "use serde::{Deserialize, Serialize};\n\n";
 const SENTINEL: &str = "SENTINEL-CONTENT-OF-A-PRE-EXISTING-OUTPUT-FILE\n";
@@ -39,6 +39,14 @@ pub enum OutputKind {
     MissingDir,
     IsDirectory,
     UnderRegularFile,
+    /// a symlink to an existing (longer) file: written through
+    Symlink,
+    /// relative path, resolved against the working directory of the run
+    Relative,
+    /// file name with blanks and non-ASCII characters
+    OddName,
+    /// the output path is the input file itself
+    SameAsInput,
 }
 
 #[derive(Clone, Debug, Serialize, Deserialize)]
@@ -109,7 +117,23 @@ pub fn gen_cli_case(seed: u64, index: u64, strace: bool) -> CliCase {
     let input: Vec<u8> = match input_kind {
         InputKind::Valid => {
             let c = crate::hist::random_case(seed, "C12-doc", index, if r.chance(1, 2) { crate::hist::Mix::Names } else { crate::hist::Mix::Schema });
-            c.texts()[0].clone().into_bytes()
+            let mut t = c.texts()[0].clone();
+            match r.below(10) {
+                0 => {
+                    // large document: the rendering exceeds pipe and buffer sizes (8 KiB, 64 KiB, 128 KiB ...)
+                    let n = *r.pick(&[60usize, 120, 600, 1300, 2700]);
+                    let mut s = String::from("<catalog>");
+                    for i in 0..n {
+                        s.push_str(&format!("<entry{} id=\"{}\" lang=\"en\"><title>t</title><note k=\"v\"/></entry{}>", i, i, i));
+                    }
+                    s.push_str("</catalog>");
+                    t = s;
+                }
+                1 => t = format!("{}{}", char::from_u32(0xFEFF).unwrap(), t),
+                2 => t = t.replace('\n', "\r\n").replace("><", ">\r\n<"),
+                _ => {}
+            }
+            t.into_bytes()
         }
         InputKind::Malformed => {
             // damaged until the flat oracle confirms a fault (or plain text without element)
@@ -158,13 +182,17 @@ pub fn gen_cli_case(seed: u64, index: u64, strace: bool) -> CliCase {
         4 => Some(("--sort=".to_string(), "name".to_string())),
         _ => Some(("--sort".to_string(), "name".to_string())),
     };
-    let output = match r.below(10) {
+    let output = match r.below(14) {
         0..=2 => OutputKind::Stdout,
         3 | 4 => OutputKind::NewFile,
         5 | 6 => OutputKind::ExistingFile,
         7 => OutputKind::MissingDir,
         8 => OutputKind::IsDirectory,
-        _ => OutputKind::UnderRegularFile,
+        9 => OutputKind::UnderRegularFile,
+        10 => OutputKind::Symlink,
+        11 => OutputKind::Relative,
+        12 => OutputKind::OddName,
+        _ => OutputKind::SameAsInput,
     };
     CliCase {
         origin: format!("cli:{}:{}", seed, index),
@@ -200,7 +228,9 @@ struct Snapshot {
 }
 
 fn snapshot(p: &Path) -> Snapshot {
-    match std::fs::symlink_metadata(p) {
+    // state of what the path designates (a symlink is followed: its target is what gets written)
+    let link_exists = std::fs::symlink_metadata(p).is_ok();
+    match std::fs::metadata(p) {
         Ok(m) => Snapshot {
             exists: true,
             is_file: m.is_file(),
@@ -209,7 +239,7 @@ fn snapshot(p: &Path) -> Snapshot {
             bytes: if m.is_file() { std::fs::read(p).unwrap_or_default() } else { Vec::new() },
         },
         Err(_) => Snapshot {
-            exists: false,
+            exists: link_exists,
             is_file: false,
             ino: 0,
             mtime: (0, 0),
@@ -274,7 +304,19 @@ pub fn check_cli(bin: &Path, work: &Path, case: &CliCase, serial: u64, rep: &mut
             let _ = std::fs::write(&f, "x");
             Some(f.join("out.rs"))
         }
+        OutputKind::Symlink => {
+            let target = dir.join("real-target.rs");
+            let _ = std::fs::write(&target, SENTINEL.repeat(400));
+            let link = dir.join("link.rs");
+            let _ = std::os::unix::fs::symlink(&target, &link);
+            Some(link)
+        }
+        OutputKind::Relative => Some(PathBuf::from("rel-out.rs")),
+        OutputKind::OddName => Some(dir.join("out put ü — 日本.rs")),
+        OutputKind::SameAsInput => Some(in_path.clone()),
     };
+    // where the output really lands (for snapshots): relative paths resolve against the run directory
+    let out_abs: Option<PathBuf> = out_path.as_ref().map(|p| if p.is_absolute() { p.clone() } else { dir.join(p) });
     let mut opts: Vec<String> = Vec::new();
     push_opt(&mut opts, &case.parser);
     push_opt(&mut opts, &case.derive);
@@ -294,7 +336,7 @@ pub fn check_cli(bin: &Path, work: &Path, case: &CliCase, serial: u64, rep: &mut
             }
         }
     };
-    let before = out_path.as_ref().map(|p| snapshot(p));
+    let before = out_abs.as_ref().map(|p| snapshot(p));
     let strace_log = dir.join("strace.log");
     let mut cmd = if case.strace {
         let mut c = Command::new("strace");
@@ -311,7 +353,7 @@ pub fn check_cli(bin: &Path, work: &Path, case: &CliCase, serial: u64, rep: &mut
             return;
         }
     };
-    let after = out_path.as_ref().map(|p| snapshot(p));
+    let after = out_abs.as_ref().map(|p| snapshot(p));
     let code = out.status.code();
     let stdout = out.stdout.clone();
     let stderr = out.stderr.clone();
@@ -321,7 +363,10 @@ pub fn check_cli(bin: &Path, work: &Path, case: &CliCase, serial: u64, rep: &mut
         _ => None,
     };
     let input_at_fault = expected.is_none();
-    let output_creatable = matches!(case.output, OutputKind::Stdout | OutputKind::NewFile | OutputKind::ExistingFile);
+    let output_creatable = matches!(
+        case.output,
+        OutputKind::Stdout | OutputKind::NewFile | OutputKind::ExistingFile | OutputKind::Symlink | OutputKind::Relative | OutputKind::OddName | OutputKind::SameAsInput
+    ) && !(case.output == OutputKind::SameAsInput && matches!(case.input_kind, InputKind::Missing | InputKind::Directory));
     rep.count(&format!("input {:?}", case.input_kind));
     rep.count(&format!("output {:?}", case.output));
     rep.count(if input_at_fault { "expected failure: input" } else if output_creatable { "expected success" } else { "expected failure: output" });
@@ -426,7 +471,7 @@ pub fn run_c12(thorough: bool, seed: u64, shards: usize) -> (Report, String) {
         }
     };
     let have_strace = Command::new("strace").arg("-V").stdout(Stdio::null()).stderr(Stdio::null()).status().map(|s| s.success()).unwrap_or(false);
-    let n: u64 = if thorough { 16_000 } else { 1_600 };
+    let n: u64 = if thorough { 48_000 } else { 4_800 };
     let work = crate::report::out_dir().join("work").join(format!("c12-{}", std::process::id()));
     let _ = std::fs::create_dir_all(&work);
     let mut rep = crate::report::sharded(shards, |shard| {
